@@ -82,4 +82,302 @@ example :
     getNodes 5 leaves ["c2", "q"] = [["c2", "q"]] ∧
     getNodes 5 leaves ["all", "p1"] = [["c1", "p1"], ["c2", "p1"]] := by decide +kernel
 
+/-! ### hierarchies of any depth -/
+
+/-- the leaf paths of a circuit hierarchy of uniform depth `d`, in declaration order: at depth 0 a node (the empty relative path), at depth
+`d+1` a non-empty list of distinctly labelled sub-hierarchies whose leaves are listed sub-circuit by sub-circuit -/
+def Hier : Nat → List NodePath → Prop
+  | 0, leaves => leaves = [[]]
+  | d + 1, leaves => ∃ cs : List (String × List NodePath),
+      cs ≠ [] ∧ (cs.map Prod.fst).Nodup ∧ (∀ c ∈ cs, Hier d c.2) ∧ leaves = cs.flatMap (fun c => c.2.map (c.1 :: ·))
+
+def blocks (cs : List (String × List NodePath)) : List NodePath := cs.flatMap (fun c => c.2.map (c.1 :: ·))
+
+theorem hier_ne_nil : ∀ (d : Nat) (leaves : List NodePath), Hier d leaves → leaves ≠ [] := by
+  intro d
+  induction d with
+  | zero => intro leaves h; simp [Hier] at h; simp [h]
+  | succ d ih =>
+    intro leaves h
+    obtain ⟨cs, hne, _, hsub, rfl⟩ := h
+    cases cs with
+    | nil => exact absurd rfl hne
+    | cons c rest =>
+      have := ih c.2 (hsub c (by simp))
+      cases hc : c.2 with
+      | nil => exact absurd hc this
+      | cons q qs => simp [hc]
+
+theorem hier_length : ∀ (d : Nat) (leaves : List NodePath), Hier d leaves → ∀ q ∈ leaves, q.length = d := by
+  intro d
+  induction d with
+  | zero => intro leaves h q hq; simp [Hier] at h; subst h; simp at hq; simp [hq]
+  | succ d ih =>
+    intro leaves h q hq
+    obtain ⟨cs, _, _, hsub, rfl⟩ := h
+    simp only [List.mem_flatMap, List.mem_map] at hq
+    obtain ⟨c, hc, q', hq', rfl⟩ := hq
+    simp [ih c.2 (hsub c hc) q' hq']
+
+/-- the dedup fold over a list that consists of non-empty blocks of equal labels with pairwise distinct labels -/
+theorem fold_blocks (cs : List (String × List NodePath)) (hne : ∀ c ∈ cs, c.2 ≠ []) :
+    ∀ (acc : List String), (acc ++ cs.map Prod.fst).Nodup →
+      ((blocks cs).filterMap List.head?).foldl (fun acc l => if acc.contains l then acc else acc ++ [l]) acc = acc ++ cs.map Prod.fst := by
+  induction cs with
+  | nil => intro acc _; simp [blocks]
+  | cons c rest ih =>
+    intro acc hnd
+    have hc2 : c.2 ≠ [] := hne c (by simp)
+    have hrest : ∀ c' ∈ rest, c'.2 ≠ [] := fun c' h => hne c' (by simp [h])
+    have hblock : (blocks (c :: rest)).filterMap List.head? = c.2.map (fun _ => c.1) ++ (blocks rest).filterMap List.head? := by
+      simp [blocks, List.filterMap_append, List.filterMap_map, Function.comp_def]
+    rw [hblock, List.foldl_append]
+    have hnot : acc.contains c.1 = false := by
+      simp only [List.contains_eq_mem, decide_eq_false_iff_not]
+      intro hm
+      have := List.nodup_append.mp hnd
+      exact this.2.2 c.1 hm c.1 (by simp) rfl
+    have hfold : ∀ (qs : List NodePath), qs ≠ [] →
+        (qs.map (fun _ => c.1)).foldl (fun acc l => if acc.contains l then acc else acc ++ [l]) acc = acc ++ [c.1] := by
+      intro qs hq
+      cases qs with
+      | nil => exact absurd rfl hq
+      | cons q qs =>
+        simp only [List.map_cons, List.foldl_cons, hnot, Bool.false_eq_true, if_false]
+        have : ∀ (m : List NodePath) (a : List String), a.contains c.1 = true →
+            (m.map (fun _ => c.1)).foldl (fun acc l => if acc.contains l then acc else acc ++ [l]) a = a := by
+          intro m
+          induction m with
+          | nil => intro a _; rfl
+          | cons _ m ihm => intro a ha; simp only [List.map_cons, List.foldl_cons, ha, if_true]; exact ihm a ha
+        exact this qs (acc ++ [c.1]) (by simp)
+    rw [hfold c.2 hc2, ih hrest (acc ++ [c.1]) (by simpa [List.append_assoc] using hnd)]
+    simp [List.append_assoc]
+
+theorem children_blocks (cs : List (String × List NodePath)) (hne : ∀ c ∈ cs, c.2 ≠ []) (hnd : (cs.map Prod.fst).Nodup) :
+    children (blocks cs) = cs.map Prod.fst := by
+  unfold children
+  simpa using fold_blocks cs hne [] (by simpa using hnd)
+
+theorem sub_blocks (cs : List (String × List NodePath)) (hnd : (cs.map Prod.fst).Nodup) (c : String × List NodePath) (hc : c ∈ cs) :
+    sub (blocks cs) c.1 = c.2 := by
+  induction cs with
+  | nil => simp at hc
+  | cons a rest ih =>
+    have hnd' : a.1 ∉ rest.map Prod.fst ∧ (rest.map Prod.fst).Nodup := List.nodup_cons.mp (by rw [List.map_cons] at hnd; exact hnd)
+    have hsplit : blocks (a :: rest) = a.2.map (a.1 :: ·) ++ blocks rest := by simp [blocks]
+    unfold sub
+    rw [hsplit, List.filter_append, List.map_append]
+    rcases List.mem_cons.mp hc with rfl | hmem
+    · have h1 : ((c.2.map (c.1 :: ·)).filter (fun p => p.head? == some c.1)).map List.tail = c.2 := by
+        rw [List.filter_eq_self.mpr (by intro p hp; obtain ⟨q, _, rfl⟩ := List.mem_map.mp hp; simp)]
+        simp [List.map_map, Function.comp_def]
+      have h2 : (blocks rest).filter (fun p => p.head? == some c.1) = [] := by
+        rw [List.filter_eq_nil_iff]
+        intro p hp
+        simp only [blocks, List.mem_flatMap, List.mem_map] at hp
+        obtain ⟨c', hc', q, _, rfl⟩ := hp
+        have : c'.1 ≠ c.1 := fun e => hnd'.1 (e ▸ List.mem_map_of_mem (f := Prod.fst) hc')
+        simp [this]
+      rw [h1, h2]; simp
+    · have hne : a.1 ≠ c.1 := fun e => hnd'.1 (e ▸ List.mem_map_of_mem (f := Prod.fst) hmem)
+      have h1 : (a.2.map (a.1 :: ·)).filter (fun p => p.head? == some c.1) = [] := by
+        rw [List.filter_eq_nil_iff]
+        intro p hp; obtain ⟨q, _, rfl⟩ := List.mem_map.mp hp; simp [hne]
+      rw [h1]
+      simpa [sub] using ih hnd'.2 hmem
+
+theorem sub_blocks_none (cs : List (String × List NodePath)) (l : String) (hl : l ∉ cs.map Prod.fst) : sub (blocks cs) l = [] := by
+  unfold sub
+  have : (blocks cs).filter (fun p => p.head? == some l) = [] := by
+    rw [List.filter_eq_nil_iff]
+    intro p hp
+    simp only [blocks, List.mem_flatMap, List.mem_map] at hp
+    obtain ⟨c, hc, q, _, rfl⟩ := hp
+    have : c.1 ≠ l := fun e => hl (e ▸ List.mem_map_of_mem (f := Prod.fst) hc)
+    simp [this]
+  simp [this]
+
+theorem getNodes_nil : ∀ (fuel : Nat) (pat : List String), getNodes fuel [] pat = [] := by
+  intro fuel
+  induction fuel with
+  | zero => intro pat; rfl
+  | succ fuel ih =>
+    intro pat
+    match pat with
+    | [] => rfl
+    | [p] => unfold getNodes; by_cases hp : (p == "all") = true <;> simp [hp, children]
+    | p :: q :: rest =>
+      unfold getNodes
+      by_cases hp : (p == "all") = true
+      · simp [hp, children]
+      · simp [hp, sub, ih]
+
+theorem flatMap_congr' {α β} (l : List α) (f g : α → List β) (h : ∀ x ∈ l, f x = g x) : l.flatMap f = l.flatMap g := by
+  induction l with
+  | nil => rfl
+  | cons a r ih => rw [List.flatMap_cons, List.flatMap_cons, h a (by simp), ih (fun x hx => h x (by simp [hx]))]
+
+theorem matchesPat_cons (p l : String) (rest : List String) (q : NodePath) (hr : rest ≠ []) (hq : q.length = rest.length) :
+    matchesPat (p :: rest) (l :: q) = ((p == "all" || p == l) && matchesPat rest q) := by
+  unfold matchesPat
+  have h1 : ((p :: rest) == ["all"]) = false := by
+    cases rest with
+    | nil => exact absurd rfl hr
+    | cons a r => simp
+  have h2 : ((p :: rest).length == (l :: q).length) = true := by simp [hq]
+  have h3 : (rest.length == q.length) = true := by simp [hq]
+  rw [h1, h2, h3]
+  simp only [Bool.false_or, Bool.true_and, List.zip_cons_cons, List.all_cons]
+  by_cases hall : (rest == ["all"]) = true
+  · have hre : rest = ["all"] := by simpa using hall
+    subst hre
+    match q, hq with
+    | [x], _ => simp
+  · simp [hall]
+
+theorem filter_blocks (cs : List (String × List NodePath)) (p : String) (rest : List String) (hr : rest ≠ [])
+    (hlen : ∀ c ∈ cs, ∀ q ∈ c.2, q.length = rest.length) :
+    (blocks cs).filter (matchesPat (p :: rest))
+      = cs.flatMap (fun c => if (p == "all" || p == c.1) then (c.2.filter (matchesPat rest)).map (c.1 :: ·) else []) := by
+  induction cs with
+  | nil => simp [blocks]
+  | cons a r ih =>
+    have hsplit : blocks (a :: r) = a.2.map (a.1 :: ·) ++ blocks r := by simp [blocks]
+    rw [hsplit, List.filter_append, List.flatMap_cons, ih (fun c hc => hlen c (by simp [hc]))]
+    congr 1
+    have hfa : (a.2.map (a.1 :: ·)).filter (matchesPat (p :: rest))
+        = (a.2.filter (fun q => (p == "all" || p == a.1) && matchesPat rest q)).map (a.1 :: ·) := by
+      rw [List.filter_map]
+      congr 1
+      apply List.filter_congr
+      intro q hq
+      simp only [Function.comp]
+      exact matchesPat_cons p a.1 rest q hr (hlen a (by simp) q hq)
+    rw [hfa]
+    by_cases hp : (p == "all" || p == a.1) = true
+    · simp [hp]
+    · have : (p == "all" || p == a.1) = false := by simpa using hp
+      simp [this]
+
+theorem globSpec_all (leaves : List NodePath) : globSpec leaves ["all"] = leaves := by
+  unfold globSpec
+  rw [List.filter_eq_self]
+  intro q _; simp [matchesPat]
+
+/-- **Hierarchical circuits**: on the leaf list of a circuit hierarchy of any depth `d ≥ 1` (sub-circuits of sub-circuits …, distinct labels per
+level, any number of nodes) `get_nodes` is the glob for every pattern with one component per level and for the single `all`. -/
+theorem C06_getNodes_hier : ∀ (d : Nat) (leaves : List NodePath) (pat : List String) (fuel : Nat),
+    Hier (d + 1) leaves → (pat.length = d + 1 ∨ pat = ["all"]) → d + 1 ≤ fuel →
+    getNodes fuel leaves pat = globSpec leaves pat := by
+  intro d
+  induction d with
+  | zero =>
+    intro leaves pat fuel h hp hf
+    obtain ⟨cs, hne0, hnd, hsub, rfl⟩ := h
+    clear hne0
+    have hflat : cs.flatMap (fun c => c.2.map (c.1 :: ·)) = (cs.map Prod.fst).map (fun l => [l]) := by
+      have : ∀ c ∈ cs, c.2 = [[]] := fun c hc => by simpa [Hier] using hsub c hc
+      clear hnd hsub
+      induction cs with
+      | nil => rfl
+      | cons a r ih => simp [List.flatMap_cons, this a (by simp), ih (fun c hc => this c (by simp [hc]))]
+    rw [hflat]
+    obtain ⟨fuel', rfl⟩ : ∃ f, fuel = f + 1 := ⟨fuel - 1, by omega⟩
+    have hp1 : ∃ p, pat = [p] := by
+      rcases hp with hp | hp
+      · match pat, hp with
+        | [p], _ => exact ⟨p, rfl⟩
+      · exact ⟨"all", hp⟩
+    obtain ⟨p, rfl⟩ := hp1
+    exact C06_getNodes_flat (cs.map Prod.fst) hnd p fuel'
+  | succ d ih =>
+    intro leaves pat fuel h hp hf
+    obtain ⟨cs, hne, hnd, hsub, rfl⟩ := h
+    obtain ⟨fuel', rfl⟩ : ∃ f, fuel = f + 1 := ⟨fuel - 1, by omega⟩
+    have hcne : ∀ c ∈ cs, c.2 ≠ [] := fun c hc => hier_ne_nil (d + 1) c.2 (hsub c hc)
+    have hchildren := children_blocks cs hcne hnd
+    have hlen : ∀ c ∈ cs, ∀ q ∈ c.2, q.length = d + 1 := fun c hc q hq => hier_length (d + 1) c.2 (hsub c hc) q hq
+    show getNodes (fuel' + 1) (blocks cs) pat = globSpec (blocks cs) pat
+    rcases hp with hp | hp
+    · -- one component per level
+      match pat, hp with
+      | p :: q :: rest, hp =>
+        have hrl : (q :: rest).length = d + 1 := by simpa using hp
+        have hrne : (q :: rest) ≠ [] := by simp
+        unfold getNodes globSpec
+        rw [filter_blocks cs p (q :: rest) hrne (fun c hc x hx => by rw [hlen c hc x hx, hrl])]
+        by_cases hall : (p == "all") = true
+        · simp only [hall, if_true, Bool.true_or]
+          rw [hchildren, List.flatMap_map]
+          apply flatMap_congr'
+          intro c hc
+          rw [sub_blocks cs hnd c hc, ih c.2 (q :: rest) fuel' (hsub c hc) (Or.inl hrl) (by omega)]
+          rfl
+        · have hall' : (p == "all") = false := by simpa using hall
+          simp only [hall', Bool.false_eq_true, if_false, Bool.false_or]
+          by_cases hmem : p ∈ cs.map Prod.fst
+          · obtain ⟨c, hc, rfl⟩ := List.mem_map.mp hmem
+            rw [sub_blocks cs hnd c hc, ih c.2 (q :: rest) fuel' (hsub c hc) (Or.inl hrl) (by omega)]
+            -- exactly one block matches
+            have : ∀ (l : List (String × List NodePath)), (l.map Prod.fst).Nodup → c ∈ l →
+                l.flatMap (fun c' => if (c.1 == c'.1) = true then (c'.2.filter (matchesPat (q :: rest))).map (c'.1 :: ·) else [])
+                  = (globSpec c.2 (q :: rest)).map (c.1 :: ·) := by
+              intro l
+              induction l with
+              | nil => intro _ h; simp at h
+              | cons a r ihl =>
+                intro hn hm
+                have hn' : a.1 ∉ r.map Prod.fst ∧ (r.map Prod.fst).Nodup := List.nodup_cons.mp (by rw [List.map_cons] at hn; exact hn)
+                rw [List.flatMap_cons]
+                rcases List.mem_cons.mp hm with rfl | hr
+                · have hnone : r.flatMap (fun c' => if (c.1 == c'.1) = true then (c'.2.filter (matchesPat (q :: rest))).map (c'.1 :: ·) else []) = [] := by
+                    rw [List.flatMap_eq_nil_iff]
+                    intro c' hc'
+                    have : c.1 ≠ c'.1 := fun e => hn'.1 (e ▸ List.mem_map_of_mem (f := Prod.fst) hc')
+                    simp [this]
+                  rw [hnone]; simp [globSpec]
+                · have : (c.1 == a.1) = false := by
+                    have : c.1 ≠ a.1 := fun e => hn'.1 (e ▸ List.mem_map_of_mem (f := Prod.fst) hr)
+                    simpa using this
+                  simp only [this, Bool.false_eq_true, if_false, List.nil_append]
+                  exact ihl hn'.2 hr
+            exact (this cs hnd hc).symm
+          · rw [sub_blocks_none cs p hmem, getNodes_nil]
+            symm
+            simp only [List.map_nil]
+            rw [List.flatMap_eq_nil_iff]
+            intro c hc
+            have : p ≠ c.1 := fun e => hmem (e ▸ List.mem_map_of_mem (f := Prod.fst) hc)
+            simp [this]
+    · -- the single `all`
+      subst hp
+      rw [globSpec_all]
+      unfold getNodes
+      have hnot : (blocks cs).all (fun q => q.length ≤ 1) = false := by
+        rw [List.all_eq_false]
+        obtain ⟨c, hc⟩ := List.exists_mem_of_ne_nil cs hne
+        obtain ⟨q, hq⟩ := List.exists_mem_of_ne_nil c.2 (hcne c hc)
+        refine ⟨c.1 :: q, ?_, ?_⟩
+        · simp only [blocks, List.mem_flatMap, List.mem_map]; exact ⟨c, hc, q, hq, rfl⟩
+        · simp [hlen c hc q hq]
+      simp only [beq_self_eq_true, if_true, hnot, Bool.false_eq_true, if_false]
+      rw [hchildren, List.flatMap_map]
+      show _ = cs.flatMap (fun c => c.2.map (c.1 :: ·))
+      apply flatMap_congr'
+      intro c hc
+      show (getNodes fuel' (sub (blocks cs) c.1) ["all"]).map (c.1 :: ·) = _
+      rw [sub_blocks cs hnd c hc, ih c.2 ["all"] fuel' (hsub c hc) (Or.inr rfl) (by omega), globSpec_all]
+
+/-- Non-vacuity: a concrete two-level hierarchy satisfies `Hier` (and the theorem applies to it). -/
+example : Hier 2 [["c1", "p1"], ["c1", "p2"], ["c2", "q"]] := by
+  refine ⟨[("c1", [["p1"], ["p2"]]), ("c2", [["q"]])], by simp, by decide, ?_, rfl⟩
+  intro c hc
+  simp only [List.mem_cons, List.mem_nil_iff, or_false] at hc
+  rcases hc with rfl | rfl
+  · exact ⟨[("p1", [[]]), ("p2", [[]])], by simp, by decide, by intro c hc; simp at hc; rcases hc with rfl | rfl <;> rfl, rfl⟩
+  · exact ⟨[("q", [[]])], by simp, by decide, by intro c hc; simp at hc; subst hc; rfl, rfl⟩
+
+example : getNodes 3 [["c1", "p1"], ["c1", "p2"], ["c2", "q"]] ["all", "p1"] = [["c1", "p1"]] := by decide +kernel
+
 end PyRates.Paths
